@@ -1,6 +1,9 @@
 """C16 clause (4): behaviour of S*/QF* fixes.
 
-TLC (specs/MCFixCases.tla) enumerates the abstract cases  shape x operand effects x context;
+TLC (specs/MCFixCases.tla) enumerates the abstract cases  shape x operand effects x context x
+occurrence variation (the occurrences of a repeated metavariable are instantiated identically or
+one of them as a near-equal variant: swapped operands, parentheses, literal spelling, x+0, another
+index/field/base/element/identifier -- this exercises the checks' *matching conditions*);
 this module instantiates each as an executable Go function (one template per shape id), runs
 the real analyzers on the generated package through the same record -> FixesObs -> go/types
 pipeline as every other input, applies every offered S*/QF* fix, compiles original and fixed
@@ -85,6 +88,252 @@ def T_qf1005(n):
     return t
 
 
+# ---------------------------------------------------------------------------------------------
+# occurrence variation (FixCases.tla): realisation of the near-equal variants per metavariable kind
+# ---------------------------------------------------------------------------------------------
+
+# shape -> mv -> (kind, n, slot): must equal the reps of specs/MCFixCases.tla (checked against TLC's output)
+REPS = {
+    "s1010": {"x": ("sl", 2, 0)},
+    "s1011": {"lhs": ("sl", 2, 0), "val": ("id", 1, 0)},
+    "s1011_idx": {"x": ("sl", 2, 1), "lhs": ("sl", 2, 0)},
+    "s1001": {"key": ("id", 1, 0), "value": ("id", 1, 0)},
+    "s1001_idx": {"src": ("sl", 2, 1), "key": ("id", 2, 0)},
+    "s1016": {"v": ("id", 2, 0)},
+    "s1018": {"slice": ("sl", 2, 0), "initvar": ("id", 2, 0)},
+    "s1021": {"x": ("id", 1, 0)},
+    "s1033": {"m": ("map", 2, 0), "key": ("int", 2, 1)},
+    "s1034": {"x": ("id", 2, 0)},
+    "s1036_inc": {"m": ("map", 3, 0), "key": ("int", 3, 1), "value": ("int", 2, 2)},
+    "qf1002": {"tag": ("int", 3, 0)}, "qf1003": {"tag": ("int", 4, 0)},
+    "qf1002_str": {"tag": ("str", 3, 0)}, "qf1003_str": {"tag": ("str", 4, 0)},
+    "qf1002_bool": {"tag": ("bool", 3, 0)}, "qf1003_bool": {"tag": ("bool", 4, 0)},
+    "qf1007": {"x": ("id", 1, 0)},
+}
+
+VA, VB = 4, 5   # input indices of the two operands of swapped / indexed / field variants
+
+MAP_A, MAP_B = "map[int]int{0: 1, 1: 2}", "map[int]int{0: 3, 1: 4, 3: 5}"
+
+
+def realise(kind, var, D, alt=None):
+    """-> {"base", "variant", "decl" (None: keep the template's own declaration), "obs" (None: keep)}
+    D is the expression all occurrences carry in the base cases."""
+    a, b = VA, VB
+    r = {"decl": None, "obs": None}
+
+    def two(x, y, decl=None, obs=None):
+        r.update(base=x, variant=y, decl=decl, obs=obs)
+        return r
+
+    if var == "paren":
+        return two(D, "(%s)" % D)
+    if var == "ident":
+        r = two(D, alt["name"])
+        r["extra_decl"], r["extra_obs"] = alt["decl"], alt.get("obs")
+        return r
+    if kind == "int":
+        ops = {"swapAdd": "+", "swapSub": "-", "swapMul": "*", "swapAnd": "&", "swapOr": "|", "swapXor": "^"}
+        if var in ops:
+            return two("i%d %s i%d" % (a, ops[var], b), "i%d %s i%d" % (b, ops[var], a))
+        return {
+            "swapCall": lambda: two("rt.Ei(%d) + rt.Ei(%d)" % (a, b), "rt.Ei(%d) + rt.Ei(%d)" % (b, a)),
+            "lit": lambda: two("i%d + 1" % a, "i%d + 0x1" % a),
+            "plus0": lambda: two("i%d" % a, "i%d + 0" % a),
+            "index": lambda: two("ai[0]", "ai[1]", "ai := [2]int{i%d, i%d}" % (a, b)),
+            "field": lambda: two("pi.A", "pi.B", "pi := struct{ A, B int }{i%d, i%d}" % (a, b)),
+            "base": lambda: two("pi.A", "qi.A", "pi, qi := struct{ A int }{i%d}, struct{ A int }{i%d}" % (a, b)),
+            "elt": lambda: two("[2]int{i%d, 1}[1]" % a, "[2]int{i%d, 2}[1]" % a),
+        }[var]()
+    if kind == "str":
+        return {
+            "swapCat": lambda: two("s%d + s%d" % (a, b), "s%d + s%d" % (b, a)),
+            "swapCall": lambda: two("rt.Es(%d) + rt.Es(%d)" % (a, b), "rt.Es(%d) + rt.Es(%d)" % (b, a)),
+            "lit": lambda: two('s%d + "a"' % a, 's%d + "\\x61"' % a),
+            "plus0": lambda: two("s%d" % a, 's%d + ""' % a),
+            "index": lambda: two("as[0]", "as[1]", "as := [2]string{s%d, s%d}" % (a, b)),
+            "field": lambda: two("ps.A", "ps.B", "ps := struct{ A, B string }{s%d, s%d}" % (a, b)),
+            "base": lambda: two("ps.A", "qs.A", "ps, qs := struct{ A string }{s%d}, struct{ A string }{s%d}" % (a, b)),
+            "elt": lambda: two('[2]string{s%d, "ab"}[1]' % a, '[2]string{s%d, "ba"}[1]' % a),
+        }[var]()
+    if kind == "bool":
+        return {
+            "swapEq": lambda: two("(i%d == i%d)" % (a, b), "(i%d == i%d)" % (b, a)),
+            "swapNe": lambda: two("(i%d != i%d)" % (a, b), "(i%d != i%d)" % (b, a)),
+            "swapCall": lambda: two("(rt.Ei(%d) == rt.Ei(%d))" % (a, b), "(rt.Ei(%d) == rt.Ei(%d))" % (b, a)),
+            "index": lambda: two("ab[0]", "ab[1]", "ab := [2]bool{b%d, b%d}" % (a, b)),
+            "field": lambda: two("pb.A", "pb.B", "pb := struct{ A, B bool }{b%d, b%d}" % (a, b)),
+            "base": lambda: two("pb.A", "qb.A", "pb, qb := struct{ A bool }{b%d}, struct{ A bool }{b%d}" % (a, b)),
+        }[var]()
+    if kind == "map":
+        return {
+            "index": lambda: two("ms[0]", "ms[1]", "ms := [2]map[int]int{%s, %s}" % (MAP_A, MAP_B), "ms"),
+            "lit": lambda: two("ms[1]", "ms[0x1]", "ms := [2]map[int]int{%s, %s}" % (MAP_B, MAP_A), "ms"),
+            "field": lambda: two("pm.M", "pm.N", "pm := struct{ M, N map[int]int }{%s, %s}" % (MAP_A, MAP_B), "pm"),
+            "base": lambda: two("pm.M", "qm.M", "pm, qm := struct{ M map[int]int }{%s}, struct{ M map[int]int }{%s}" % (MAP_A, MAP_B), "pm, qm"),
+        }[var]()
+    if kind == "sl":
+        sa, sb = "rt.Sl(i%d)" % a, "rt.Sl(i%d)" % b
+        return {
+            "index": lambda: two("xs[0]", "xs[1]", "xs := [2][]int{%s, %s}" % (sa, sb), "xs"),
+            "lit": lambda: two("xs[1]", "xs[0x1]", "xs := [2][]int{%s, %s}" % (sb, sa), "xs"),
+            "field": lambda: two("px.A", "px.B", "px := struct{ A, B []int }{%s, %s}" % (sa, sb), "px"),
+            "base": lambda: two("px.A", "qx.A", "px, qx := struct{ A []int }{%s}, struct{ A []int }{%s}" % (sa, sb), "px, qx"),
+            "elt": lambda: two("[]int{10, 20}", "[]int{10, 30}"),
+        }[var]()
+    raise KeyError((kind, var))
+
+
+class Occ:
+    """How the occurrences of the repeated metavariables of one case are instantiated."""
+
+    def __init__(self, case):
+        occ = case.get("occ") or {"mv": "", "var": "same", "at": 0}
+        self.shape, self.mv, self.var, self.at = case["shape"], occ["mv"], occ["var"], occ["at"]
+        self._alt = {}
+
+    def _r(self, mv, D):
+        kind = REPS[self.shape][mv][0]
+        return realise(kind, self.var, D, self._alt.get(mv))
+
+    def alt(self, mv, name, decl, obs=None):
+        """the other identifier of an `ident` variation (template knowledge)"""
+        self._alt[mv] = {"name": name, "decl": decl, "obs": obs}
+
+    def on(self, mv):
+        return self.var != "same" and self.mv == mv
+
+    def __call__(self, mv, j, D):
+        """expression of the j-th variable occurrence (1-based) of metavariable mv"""
+        if not self.on(mv):
+            return D
+        r = self._r(mv, D)
+        return r["variant"] if j == self.at else r["base"]
+
+    def decl(self, mv, D, default=""):
+        """declarations that the occurrences of mv need (replaces the template's own if the variant brings one)"""
+        if not self.on(mv):
+            return default
+        r = self._r(mv, D)
+        out = default if r["decl"] is None else r["decl"]
+        if r.get("extra_decl"):
+            out = (out + "\n\t" if out else "") + r["extra_decl"]
+        return out
+
+    def obs(self, mv, D, default):
+        """what to render so that every object the occurrences may touch is visible in the result"""
+        if not self.on(mv):
+            return default
+        r = self._r(mv, D)
+        out = default if r["obs"] is None else r["obs"]
+        if r.get("extra_obs"):
+            out = out + ", " + r["extra_obs"]
+        return out
+
+
+def join(*stmts):
+    return "\n\t".join(s for s in stmts if s)
+
+
+def T_s1010(o, c, X):
+    return join(X.decl("x", "x3"), "res = fmt.Sprint(%s[%s:len(%s)])" % (X("x", 1, "x3"), o[0], X("x", 2, "x3")))
+
+
+def T_s1011(o, c, X):
+    d0 = "var dst []int\n\tdst = append(dst, 7)"
+    return join(X.decl("lhs", "dst", d0),
+                "for _, e := range %s {\n\t\t%s = append(%s, %s)\n\t}" % (o[0], X("lhs", 1, "dst"), X("lhs", 2, "dst"), X("val", 1, "e")),
+                "res = fmt.Sprint(%s)" % X.obs("lhs", "dst", "dst"))
+
+
+def T_s1011_idx(o, c, X):
+    d0 = "var dst []int\n\tdst = append(dst, 7)"
+    return join(X.decl("lhs", "dst", d0), X.decl("x", o[0]),
+                "for i := range %s {\n\t\t%s = append(%s, %s[i])\n\t}" % (X("x", 1, o[0]), X("lhs", 1, "dst"), X("lhs", 2, "dst"), X("x", 2, o[0])),
+                "res = fmt.Sprint(%s)" % X.obs("lhs", "dst", "dst"))
+
+
+def T_s1001(o, c, X):
+    return join("dst := make([]int, 2)", "defer func() { res = fmt.Sprint(dst) }()",
+                "for i, e := range %s {\n\t\tdst[%s] = %s\n\t}" % (o[0], X("key", 1, "i"), X("value", 1, "e")))
+
+
+def T_s1001_idx(o, c, X):
+    return join("dst := make([]int, 2)", "defer func() { res = fmt.Sprint(dst) }()", X.decl("src", o[0]),
+                "for i := range %s {\n\t\tdst[%s] = %s[%s]\n\t}" % (X("src", 1, o[0]), X("key", 1, "i"), X("src", 2, o[0]), X("key", 2, "i")))
+
+
+def T_s1016(o, c, X):
+    X.alt("v", "v2", "v2 := s1016a{i1, s1}")
+    return join("v := s1016a{i0, s0}", X.decl("v", "v"),
+                "w := s1016b{A: %s.A, B: %s.B}" % (X("v", 1, "v"), X("v", 2, "v")), "res = fmt.Sprint(w)")
+
+
+def T_s1018(o, c, X):
+    X.alt("slice", "bs2", "bs2 := []int{9, 8, 7, 6, 5}", "bs2")
+    return join("bs := []int{1, 2, 3, 4, 5}", X.decl("slice", "bs"), "defer func() { res = fmt.Sprint(%s) }()" % X.obs("slice", "bs", "bs"),
+                "n, offset := %s, %s" % (o[0], o[1]),
+                "for i := 0; i < n; i++ {\n\t\t%s[%s] = %s[offset+%s]\n\t}" % (X("slice", 1, "bs"), X("initvar", 1, "i"), X("slice", 2, "bs"), X("initvar", 2, "i")))
+
+
+def T_s1021(o, c, X):
+    X.alt("x", "y", "y := 0", "y")
+    return join(X.decl("x", "x"), "var x int", "%s = %s" % (X("x", 1, "x"), o[0]), "res = fmt.Sprint(%s)" % X.obs("x", "x", "x"))
+
+
+def T_s1033(o, c, X):
+    k = o[0]
+    return join(X.decl("m", "m", "m := " + MAP_A), X.decl("key", k), "defer func() { res = fmt.Sprint(%s) }()" % X.obs("m", "m", "m"),
+                "if _, ok := %s[%s]; ok {\n\t\tdelete(%s, %s)\n\t}" % (X("m", 1, "m"), X("key", 1, k), X("m", 2, "m"), X("key", 2, k)))
+
+
+def T_s1034(o, c, X):
+    X.alt("x", "xo", "var xo interface{} = i1")
+    return join("var x interface{} = i0", "if b0 {\n\t\tx = s0\n\t}", X.decl("x", "x"),
+                'switch %s.(type) {\n\tcase int:\n\t\ty := %s.(int)\n\t\tres = fmt.Sprint("int", y)\n\tcase string:\n\t\tres = "str"\n\t}' % (X("x", 1, "x"), X("x", 2, "x")))
+
+
+def T_s1036_inc(o, c, X):
+    k, v = o[0], o[1]
+    return join(X.decl("m", "m", "m := map[int]int{0: 5}"), X.decl("key", k), X.decl("value", v), "defer func() { res = fmt.Sprint(%s) }()" % X.obs("m", "m", "m"),
+                "if _, ok := %s[%s]; ok {\n\t\t%s[%s] += %s\n\t} else {\n\t\t%s[%s] = %s\n\t}" % (
+                    X("m", 1, "m"), X("key", 1, k), X("m", 2, "m"), X("key", 2, k), X("value", 1, v), X("m", 3, "m"), X("key", 3, k), X("value", 2, v)))
+
+
+# tag kind -> (tag of the base cases, constants of the last condition, literal case values by slot)
+TAGS = {"int": ("i3", ("3", "-1"), None), "str": ("s3", ('"aab"', '"bab"'), ('"ab"', '"ba"')), "bool": ("b3", ("b2", "!b2"), None)}
+
+
+def tag_operands(kind, o):
+    D, consts, lits = TAGS[kind]
+    if lits:
+        o = [lits[i] if x == '"a"' else x for i, x in enumerate(o)]
+    return D, consts, o
+
+
+def T_qf1002(kind):
+    def t(o, c, X):
+        D, consts, o = tag_operands(kind, o)
+        return join(X.decl("tag", D),
+                    'switch {\n\tcase %s == %s:\n\t\tres = "one"\n\tcase %s == %s || %s == %s:\n\t\tres = "two"\n\tdefault:\n\t\tres = "other"\n\t}' % (
+                        X("tag", 1, D), o[0], X("tag", 2, D), o[1], X("tag", 3, D), consts[0]))
+    return t
+
+
+def T_qf1003(kind):
+    def t(o, c, X):
+        D, consts, o = tag_operands(kind, o)
+        return join(X.decl("tag", D),
+                    'if %s == %s {\n\t\tres = "one"\n\t} else if %s == %s {\n\t\tres = "two"\n\t} else if %s == %s || %s == %s {\n\t\tres = "nine"\n\t} else {\n\t\tres = "other"\n\t}' % (
+                        X("tag", 1, D), o[0], X("tag", 2, D), o[1], X("tag", 3, D), consts[0], X("tag", 4, D), consts[1]))
+    return t
+
+
+def T_qf1007(o, c, X):
+    X.alt("x", "xo", "xo := false", "xo")
+    return join(X.decl("x", "x"), "x := false", "if %s {\n\t\t%s = true\n\t}" % (o[0], X("x", 1, "x")), "res = fmt.Sprint(%s)" % X.obs("x", "x", "x"))
+
+
 TEMPLATES = {
     "s1002_eqT": T_s1002("eqT"), "s1002_neT": T_s1002("neT"), "s1002_eqF": T_s1002("eqF"), "s1002_neF": T_s1002("neF"), "s1002_Teq": T_s1002("Teq"),
     "s1003_ne": T_s1003("Index", "!= -1"), "s1003_eq": T_s1003("Index", "== -1"), "s1003_ge": T_s1003("Index", ">= 0"),
@@ -92,28 +341,28 @@ TEMPLATES = {
     "s1004_eq": T_s1004("== 0"), "s1004_ne": T_s1004("!= 0"),
     "s1005_rangeiblank": lambda o, c: "n := 0\n\tfor i, _ := range %s {\n\t\tn += i + 1\n\t}\n\tres = fmt.Sprint(n)" % o[0],
     "s1005_rangeblank": lambda o, c: "n := 0\n\tfor _ = range %s {\n\t\tn++\n\t}\n\tres = fmt.Sprint(n)" % o[0],
-    "s1010": lambda o, c: "res = fmt.Sprint(x3[%s:len(x3)])" % o[0],
-    "s1011": lambda o, c: "var dst []int\n\tdst = append(dst, 7)\n\tfor _, e := range %s {\n\t\tdst = append(dst, e)\n\t}\n\tres = fmt.Sprint(dst)" % o[0],
-    "s1001": lambda o, c: "dst := make([]int, 2)\n\tdefer func() { res = fmt.Sprint(dst) }()\n\tfor i, e := range %s {\n\t\tdst[i] = e\n\t}" % o[0],
-    "s1016": lambda o, c: "v := s1016a{i0, s0}\n\tw := s1016b{A: v.A, B: v.B}\n\tres = fmt.Sprint(w)",
-    "s1018": lambda o, c: "bs := []int{1, 2, 3, 4, 5}\n\tdefer func() { res = fmt.Sprint(bs) }()\n\tn, offset := %s, %s\n\tfor i := 0; i < n; i++ {\n\t\tbs[i] = bs[offset+i]\n\t}" % (o[0], o[1]),
-    "s1021": lambda o, c: "var x int\n\tx = %s\n\tres = fmt.Sprint(x)" % o[0],
+    "s1010": T_s1010,
+    "s1011": T_s1011, "s1011_idx": T_s1011_idx,
+    "s1001": T_s1001, "s1001_idx": T_s1001_idx,
+    "s1016": T_s1016,
+    "s1018": T_s1018,
+    "s1021": T_s1021,
     "s1025_str": lambda o, c: 'res = fmt.Sprintf("%%s", %s)' % o[0],
     "s1025_stringer": lambda o, c: 'st := rt.Str(i0)\n\tres = fmt.Sprintf("%s", st)',
     "s1028": lambda o, c: 'err := errors.New(fmt.Sprintf("v=%%d", %s))\n\tres = err.Error()' % o[0],
     "s1030_string": lambda o, c: "var buf bytes.Buffer\n\tbuf.WriteString(s0)\n\tres = string(buf.Bytes())",
     "s1030_bytes": lambda o, c: "var buf bytes.Buffer\n\tbuf.WriteString(s0)\n\tres = fmt.Sprint([]byte(buf.String()))",
-    "s1033": lambda o, c: "m := map[int]int{0: 1, 1: 2}\n\tdefer func() { res = fmt.Sprint(m) }()\n\tif _, ok := m[%s]; ok {\n\t\tdelete(m, %s)\n\t}" % (o[0], o[0]),
-    "s1034": lambda o, c: 'var x interface{} = i0\n\tif b0 {\n\t\tx = s0\n\t}\n\tswitch x.(type) {\n\tcase int:\n\t\ty := x.(int)\n\t\tres = fmt.Sprint("int", y)\n\tcase string:\n\t\tres = "str"\n\t}',
-    "s1036_inc": lambda o, c: "m := map[int]int{0: 5}\n\tdefer func() { res = fmt.Sprint(m) }()\n\tif _, ok := m[%s]; ok {\n\t\tm[%s] += %s\n\t} else {\n\t\tm[%s] = %s\n\t}" % (o[0], o[0], o[1], o[0], o[1]),
+    "s1033": T_s1033,
+    "s1034": T_s1034,
+    "s1036_inc": T_s1036_inc,
     "s1039": lambda o, c: 'res = fmt.Sprint("lit")',
     "qf1001_and2": T_qf1001("!(%s && %s)"), "qf1001_or2": T_qf1001("!(%s || %s)"), "qf1001_and3": T_qf1001("!(%s && %s && %s)"),
-    "qf1002": lambda o, c: 'switch {\n\tcase i3 == %s:\n\t\tres = "one"\n\tcase i3 == %s || i3 == 7:\n\t\tres = "two"\n\tdefault:\n\t\tres = "other"\n\t}' % (o[0], o[1]),
-    "qf1003": lambda o, c: 'if i3 == %s {\n\t\tres = "one"\n\t} else if i3 == %s {\n\t\tres = "two"\n\t} else if i3 == 9 {\n\t\tres = "nine"\n\t} else {\n\t\tres = "other"\n\t}' % (o[0], o[1]),
+    "qf1002": T_qf1002("int"), "qf1002_str": T_qf1002("str"), "qf1002_bool": T_qf1002("bool"),
+    "qf1003": T_qf1003("int"), "qf1003_str": T_qf1003("str"), "qf1003_bool": T_qf1003("bool"),
     "qf1004": lambda o, c: "res = strings.Replace(%s, %s, %s, -1)" % (o[0], o[1], o[2]),
     "qf1005_sq": T_qf1005(2), "qf1005_cube": T_qf1005(3),
     "qf1006": lambda o, c: "n := 0\n\tdefer func() { res = fmt.Sprint(n) }()\n\tfor {\n\t\tif %s {\n\t\t\tbreak\n\t\t}\n\t\tn++\n\t\tif n > 2 {\n\t\t\treturn\n\t\t}\n\t}" % o[0],
-    "qf1007": lambda o, c: "x := false\n\tif %s {\n\t\tx = true\n\t}\n\tres = fmt.Sprint(x)" % o[0],
+    "qf1007": T_qf1007,
     "qf1008": lambda o, c: "o := qf1008o{qf1008i{i0}}\n\tres = fmt.Sprint(o.qf1008i.F)",
     "qf1011": lambda o, c: "var x int = %s\n\tres = fmt.Sprint(x)" % o[0],
     "qf1012": lambda o, c: 'var buf bytes.Buffer\n\tvar w io.Writer = &buf\n\tn, err := %s.Write([]byte(fmt.Sprintf("v=%%d", %s)))\n\tres = fmt.Sprint(n, err, buf.String())' % (o[0], o[1]),
@@ -209,7 +458,7 @@ type entry struct {
 
 var domB = []bool{false, true}
 var domI = []int{-1, 0, 1, 3}
-var domS = []string{"", "a", "ab", "ba"}
+var domS = []string{"", "a", "b", "ab", "ba"}
 
 func runOne(f func() string) (o obs) {
 	rt.Log = nil
@@ -284,7 +533,7 @@ var entries = []entry{
 def enumerate_cases(ctx):
     r = vlib.run_tlc(ctx, "MCFixCases", "MCFixCases.cfg", workers=2, timeout=900)
     vlib.tlc_require_ok(r, "FixCases enumeration")
-    cases = sorted(r.cases, key=lambda c: (c["shape"], c["ctx"], c["effects"]))
+    cases = sorted(r.cases, key=case_order)
     if len(cases) != r.distinct:
         raise Inconclusive("MCFixCases emitted %d cases for %d states" % (len(cases), r.distinct))
     shapes = {c["shape"] for c in cases}
@@ -292,14 +541,53 @@ def enumerate_cases(ctx):
         raise Inconclusive("shape table of MCFixCases.tla and the templates differ: %s" % sorted(shapes ^ set(TEMPLATES)))
     txt = open(os.path.join(vlib.SPECS, "MCFixCases.tla")).read()
     kinds = {}
-    for m in re.finditer(r'S\("(\w+)",\s*"(\w+)",\s*<<(.*?)>>', txt):
+    for m in re.finditer(r'\bSR?\("(\w+)",\s*"(\w+)",\s*<<(.*?)>>', txt):
         kinds[m.group(1)] = [{"B": "bool", "I": "int", "T": "str", "F": "flt", "L": "sl", "Y": "bs", "W": "w"}[x] for x in re.findall(r"\b([BITFLYW])\(", m.group(3))]
+    # the repeated metavariables of the spec's shape table and of the templates must be the same
+    spec_reps = collections.defaultdict(lambda: collections.defaultdict(set))
+    for c in cases:
+        if c["occ"]["var"] != "same":
+            spec_reps[c["shape"]][c["occ"]["mv"]].add(c["occ"]["at"])
+    got = {s: {mv: max(ats) for mv, ats in d.items()} for s, d in spec_reps.items()}
+    want = {s: {mv: v[1] for mv, v in d.items()} for s, d in REPS.items()}
+    if got != want:
+        raise Inconclusive("repeated metavariables of MCFixCases.tla and of the templates differ: spec %s / templates %s" % (got, want))
+    for s, d in REPS.items():
+        for mv, (kind, n, slot) in d.items():
+            if slot and kinds[s][slot - 1] != kind:
+                raise Inconclusive("metavariable %s of %s is bound to slot %d of kind %s, not %s" % (mv, s, slot, kinds[s][slot - 1], kind))
     return cases, kinds, r
+
+
+def case_order(c):
+    return (c["shape"], c["ctx"], c["effects"], c["occ"]["mv"], c["occ"]["var"], c["occ"]["at"])
+
+
+def occ_name(c):
+    o = c["occ"]
+    return "same" if o["var"] == "same" else "%s/%s@%d" % (o["mv"], o["var"], o["at"])
+
+
+def quick_selection(ctx, cases):
+    """all statement shapes, a seeded third of the large boolean families, and one seeded case (variant
+    position, operand effects) per (shape, repeated metavariable, variation)"""
+    base = [c for c in cases if c["occ"]["var"] == "same"]
+    big = [c for c in base if c["shape"].startswith(("qf1001", "s1002", "s1003"))]
+    rest = [c for c in base if c not in big]
+    groups = collections.defaultdict(list)
+    for c in cases:
+        if c["occ"]["var"] != "same":
+            groups[(c["shape"], c["occ"]["mv"], c["occ"]["var"])].append(c)
+    occ = [vlib.sample(ctx, g, 1)[0] for _, g in sorted(groups.items())]
+    return sorted(rest + vlib.sample(ctx, big, len(big) // 3) + occ, key=case_order)
 
 
 def gen_function(name, case, kinds):
     ops = [operand(kinds[case["shape"]][i], e, i) for i, e in enumerate(case["effects"])]
-    body = TEMPLATES[case["shape"]](ops, case["ctx"])
+    if case["shape"] in REPS:
+        body = TEMPLATES[case["shape"]](ops, case["ctx"], Occ(case))
+    else:
+        body = TEMPLATES[case["shape"]](ops, case["ctx"])
     decls, inputs = [], set()
     for rx, decl, dom in LOCALS:
         for k in sorted(set(re.findall(rx, body))):
@@ -354,13 +642,13 @@ def generate(ctx, cases, kinds, root):
 
 def run_behaviour(ctx, helper, C16, only=None):
     cases, kinds, tr = enumerate_cases(ctx)
+    n_enum_occ = sum(1 for c in cases if c["occ"]["var"] != "same")
     if only:
-        cases = [c for c in cases if c["shape"] == only["shape"]]
+        # replay: every case of the shape(s); {"shapes": [...], "variations_only": true} is the development form
+        shapes = set(only.get("shapes") or [only["shape"]])
+        cases = [c for c in cases if c["shape"] in shapes and not (only.get("variations_only") and c["occ"]["var"] == "same")]
     elif ctx.quick or os.environ.get("C16_CAP"):
-        # all statement shapes and a seeded third of the large boolean families
-        big = [c for c in cases if c["shape"].startswith(("qf1001", "s1002", "s1003"))]
-        rest = [c for c in cases if c not in big]
-        cases = sorted(rest + vlib.sample(ctx, big, len(big) // 3), key=lambda c: (c["shape"], c["ctx"], c["effects"]))
+        cases = quick_selection(ctx, cases)
     root = os.path.join(ctx.tmp("beh"), "mod")
     layout, inputs = generate(ctx, cases, kinds, root)
     env = C16.toolchain_env()
@@ -479,7 +767,10 @@ def run_behaviour(ctx, helper, C16, only=None):
         name, a, b, _ = next(f for f in layout[fname] if f[3] == idx)
         src_lines = open(fname).read().split("\n")[a - 1:b]
         key = vlib.canon_key({"clause": 4, "cat": cat, "shape": case["shape"], "fix": C16.norm_msg(meta["fix"]["msg"]), "why": v["why"]})
-        ctx.violation(key, "%s fix %r changes behaviour of shape %s (effects %s, context %s): %s" % (cat, meta["fix"]["msg"], case["shape"], case["effects"], case["ctx"], v["why"]),
+        if case["occ"]["var"] != "same":
+            key = vlib.canon_key({"clause": 4, "cat": cat, "shape": case["shape"], "fix": C16.norm_msg(meta["fix"]["msg"]), "why": v["why"],
+                                  "occ": {"mv": case["occ"]["mv"], "var": case["occ"]["var"]}})
+        ctx.violation(key, "%s fix %r changes behaviour of shape %s (effects %s, context %s, occurrences %s): %s" % (cat, meta["fix"]["msg"], case["shape"], case["effects"], case["ctx"], occ_name(case), v["why"]),
                       {"clause": 4, "category": cat, "shape": case["shape"], "why": v["why"], "abstract": case, "fix": {"msg": meta["fix"]["msg"], "edits": [{"new": e["new"], "pos": e["pos"]["off"], "end": e["end"]["off"]} for e in meta["fix"]["edits"]]},
                        "function": "\n".join(src_lines), "input_vector_index": vec, "inputs": t["inputs"], "orig": t["orig"][vec], "fixed": t["fixed"][vec]})
 
@@ -494,12 +785,25 @@ def run_behaviour(ctx, helper, C16, only=None):
         raise Inconclusive("negative self-test: TLC accepted a behaviour table with a duplicated operand evaluation (%s)" % r.violated)
 
     offered = collections.Counter(cases[i]["shape"] for i in per_func if per_func[i])
+    occ_idx = [i for i, c in enumerate(cases) if c["occ"]["var"] != "same"]
+    occ_fired = collections.Counter(cases[i]["occ"]["var"] for i in occ_idx if per_func[i])
+    occ_all = collections.Counter(cases[i]["occ"]["var"] for i in occ_idx)
+    occ_diff = sorted({"%s %s" % (cases[int(t["id"].split("#")[0])]["shape"], occ_name(cases[int(t["id"].split("#")[0])]))
+                       for t in tables if not verdicts[t["id"]]["preserved"] and cases[int(t["id"].split("#")[0])]["occ"]["var"] != "same"})
     sample_t = tables[len(tables) // 2]
     si, sn = [int(x) for x in sample_t["id"].split("#")]
     return {
         "abstract_cases_enumerated": tr.distinct, "cases_instantiated": len(cases), "cases_with_fix": sum(1 for i in per_func if per_func[i]),
         "fix_applications_executed": len(tables), "executions": execs, "tables_judged_by_tlc": len(verdicts), "tlc_states": states + tr.distinct,
-        "behaviour_differences": nviol, "shapes": len(TEMPLATES), "shapes_with_fix_offered": dict(sorted(offered.items())),
+        "behaviour_differences": nviol, "shapes": len(TEMPLATES),
+        "occurrence_variation": {
+            "cases_enumerated": n_enum_occ, "cases_instantiated": len(occ_idx),
+            "repeated_metavariables": sum(len(d) for d in REPS.values()), "shapes_with_repeated_metavariable": len(REPS),
+            "triples_shape_mv_variation": len({(cases[i]["shape"], cases[i]["occ"]["mv"], cases[i]["occ"]["var"]) for i in occ_idx}),
+            "cases_by_variation": dict(sorted(occ_all.items())),
+            "cases_where_the_check_still_fired_by_variation": dict(sorted(occ_fired.items())),
+            "variation_cases_with_behaviour_difference": occ_diff[:40],
+        }, "shapes_with_fix_offered": dict(sorted(offered.items())),
         "shapes_never_offered_a_fix": sorted(set(TEMPLATES) - set(offered)),
         "generated_package_diagnostics": stats["diagnostics"], "generated_package_fixes": stats["fixes"],
         "sample": {"abstract": cases[si], "fix": by_n[sn][si][1]["fix"]["msg"], "inputs": sample_t["inputs"], "orig_first": sample_t["orig"][:2], "fixed_first": sample_t["fixed"][:2]},
